@@ -363,7 +363,9 @@ def check_batch(ctx, exe, tr, jobs, st):
                                       {"input": j.meta.get("src"), "config": j.meta.get("cfg"), "options": j.meta.get("sp"), "lang": j.lang},
                                       key=None, found_input=True)
         for c in v.p1:
-            if c["col"] >= 1 << 31:
+            # (chunks without text -- newline chunks, virtual braces -- are never positioned by output_text(): a comment in column 1
+            # that reindent_line() moves left takes the column of the newline chunk behind it below zero, without any effect)
+            if c["col"] >= 1 << 31 and c["txt"]:
                 st.wrap_bad += 1
                 if st.wrap_bad <= 2:
                     ctx.violation("after indent_text() the chunk '%s' (orig line %d) has column %d: a column wrapped below zero [%s]"
